@@ -187,7 +187,11 @@ func one(run *hx.Run, g *pk.G, e pk.Entry, encErr *int) string {
 		va, _ := pk.Extract(a, e)
 		rt = fmt.Sprintf("ok %s left=%d re=0", pk.Show(va), left)
 	}
-	run.Case(e.Name+"/rt", "rt "+ctxStr(e)+" "+vs, rt)
+	op := "rt"
+	if g.Big > 0 {
+		op = "rtx" // the list-based Lean decoder is quadratic on 40 000-element arrays: the model side is the theorem
+	}
+	run.Case(e.Name+"/"+op, op+" "+ctxStr(e)+" "+vs, rt)
 	return ""
 }
 
